@@ -63,7 +63,7 @@ def run(contract_modules, names=None, procs=None, opts=None):
     procs = procs or min(16, max(1, len(jobs)))
     if procs == 1 or len(jobs) == 1:
         return [_job(j) for j in jobs], ex
-    with mp.Pool(procs) as pool:
+    with mp.get_context('spawn').Pool(procs) as pool:
         reports = pool.map(_job, jobs, chunksize=1)
     return reports, ex
 
